@@ -486,7 +486,7 @@ fn eval_book(req: &str) -> ImplOut {
 }
 
 pub fn suites() -> Vec<Suite> {
-    vec![Suite {
+    vec![super::c24cell::suite(), Suite {
         name: "c24-book",
         rule: "distinct generated workbooks exported by save_xlsx_to_writer, imported by load_from_xlsx_bytes + Model::from_workbook, evaluated and compared by canonical snapshot",
         modelled: false,
